@@ -75,6 +75,7 @@ fn main() {
                 "lang-toks" => rgen::gen_toks(seed, n, maxlen),
                 "lang-text" => rgen::gen_texts(seed, n, maxlen),
                 "eval" => rgen::gen_eval(seed, n, maxlen),
+                "calls" => rgen::gen_calls(seed, n),
                 _ => die("unknown generator"),
             };
             for r in recs {
